@@ -34,7 +34,7 @@ Report ==
   l = N + 1 =>
      /\ PrintT(<<"TRACE_MEM_DONE", N, nexec, Len(viols)>>)
      /\ \A i \in 1..Len(viols) : PrintT(<<"TRACE_MEM_VIOLATION", viols[i].x, viols[i].line, viols[i].prop, viols[i].why>>)
-     /\ \A o \in (table \cup st.ords) : PrintT(<<"TRACE_MEM_ORD", o[1], o[2], o[3], o[4]>>)
+     /\ \A o \in (table \cup st.ords) : PrintT(<<"TRACE_MEM_ORD", o[1], o[2], o[3], o[4], o[5]>>)
 
 Accepted == TLCGet("stats").diameter = N + 1
 =============================================================================
